@@ -31,11 +31,19 @@ br_rsa_i31_oaep_decrypt(const br_hash_class *dig,
 	const br_rsa_private_key *sk, void *data, size_t *len)
 {
 	uint32_t r;
+	size_t xlen;
 
 	if (*len != ((sk->n_bitlen + 7) >> 3)) {
 		return 0;
 	}
+	/*
+	 * The private key operation may fail (e.g. value not lower than
+	 * the modulus) and still leave a properly padded block, so the
+	 * length is reported only if both steps succeeded.
+	 */
+	xlen = *len;
 	r = br_rsa_i31_private(data, sk);
-	r &= br_rsa_oaep_unpad(dig, label, label_len, data, len);
+	r &= br_rsa_oaep_unpad(dig, label, label_len, data, &xlen);
+	*len ^= (*len ^ xlen) & -(size_t)r;
 	return r;
 }
